@@ -1,21 +1,29 @@
-(** Oracle for membership changes that SPREAD (C19, part [stagger]): a member
-    joins and the agents of the existing members are told one after the other,
-    with activations issued in between — by members that already know the
-    joiner and by members that do not yet.  ClusterNet.v delivers every
-    operation's notifications before the next operation is issued (quiescent
-    histories: C19_quiescent_history_refines_spec), so there is no model run to
-    replay here; the clause of C19 evaluated on what the implementation did is
-    its last-but-one: "once the resulting notifications have been delivered,
-    every member resolves GetActiveByID(kind/id) to that same PID ... and a
-    member that joins later learns all active actors" — when every agent has
-    been told the final member list and the network is quiet, every member's
-    view of every key equals the PID that its Activate returned. *)
+(** Executable instance for membership changes that SPREAD (C19, part
+    [stagger]): a member joins and the agents of the existing members are told
+    one after the other, with activations issued in between — by members that
+    already know the joiner and by members that do not yet.  ClusterNet.v
+    delivers every operation's notifications before the next operation is
+    issued and tells every agent at once (C19_quiescent_history_refines_spec);
+    the model replayed here is JoinSpread.v.
+
+    [corr]: the model run of the same operations returns the same results
+    (nil / the host of the PID) and ends in the same GetActiveByID views on
+    every member.  [oracle]: the clause of C19 "once the resulting
+    notifications have been delivered, every member resolves
+    GetActiveByID(kind/id) to that same PID ... and a member that joins later
+    learns all active actors", on what the implementation did: when every agent
+    has been told the final member list, every member's view of every key
+    equals the PID that its Activate returned
+    (JoinSpreadProofs.join_spread_views proves it of every model run). *)
 From Coq Require Import List Arith Bool.
 Import ListNotations.
+From HV Require Export JoinSpread.
 
-(* per key: 0 = Activate returned nil / never issued, h+1 = the PID returned lives on node h;
-   c_views: the same encoding of GetActiveByID on every member, at the end *)
-Record case := { c_expect : list nat; c_views : list (list nat) }.
+(* c_res: per model operation, 0 = nil, h+1 = the PID returned lives on node h;
+   c_expect: per key, 0 = no activation returned a PID, h+1 as above;
+   c_views: the same encoding of GetActiveByID on every member (old members, then the joiner), at the end *)
+Record case := { c_m : nat; c_nk : nat; c_ops : list op; c_res : list nat;
+                 c_expect : list nat; c_views : list (list nat) }.
 
 Fixpoint list_eqb (a b : list nat) : bool :=
   match a, b with
@@ -23,11 +31,34 @@ Fixpoint list_eqb (a b : list nat) : bool :=
   | x :: a', y :: b' => Nat.eqb x y && list_eqb a' b'
   | _, _ => false
   end.
+Fixpoint lists_eqb (a b : list (list nat)) : bool :=
+  match a, b with
+  | [], [] => true
+  | x :: a', y :: b' => list_eqb x y && lists_eqb a' b'
+  | _, _ => false
+  end.
+
+Definition res_code (r : res) : nat := match r with RNil => 0 | RPid h => S h end.
+
+Definition corr (c : case) : bool :=
+  let r := run (c_m c) init (c_ops c) in
+  list_eqb (map res_code (snd r)) (c_res c) && lists_eqb (views (c_m c) (c_nk c) (fst r)) (c_views c).
 
 Definition oracle (c : case) : bool :=
   match c_views c with [] => false | _ => forallb (fun v => list_eqb v (c_expect c)) (c_views c) end.
-Definition corr (c : case) : bool := true.
-Definition branches (c : case) : list nat := [length (c_views c)].
+
+(* proof-relevant situations reached by the model run: 1 an activation by a member that has not
+   been told yet, 2 an activation by one that has, 3 several agents told in one operation *)
+Fixpoint branches_from (m : nat) (s : st) (ops : list op) : list nat :=
+  match ops with
+  | [] => []
+  | o :: r =>
+      (match o with
+       | Act who _ _ => if memb who (told s) then [2] else [1]
+       | Tell rs _ => match rs with _ :: _ :: _ => [3] | _ => [] end
+       end) ++ branches_from m (fst (step m s o)) r
+  end.
+Definition branches (c : case) : list nat := nodup Nat.eq_dec (branches_from (c_m c) init (c_ops c)).
 
 Fixpoint failing {A} (f : A -> bool) (i : nat) (l : list A) : list nat :=
   match l with [] => [] | a :: l' => (if f a then [] else [i]) ++ failing f (S i) l' end.
